@@ -176,7 +176,7 @@ fn levels_case(_: &u8, obs: &mut Obs) -> CaseResult {
 }
 
 pub fn run(run: &mut Run) {
-    let n = run.cases(200_000, 20_000_000);
+    let n = run.cases(1_000_000, 40_000_000);
     run.sub(
         "addr",
         "canonical addresses (index tuples from {0,1,255,256,510,511,uniform}^4 x offset, sign-extended; uniform; half-end neighbours); oracle: independent shift/mask extraction of bits 39-47/30-38/21-29/12-20/0-11 vs p*_index/page_offset/page_table_index(level) on VirtAddr and on Page<4K/2M/1G>, all From conversions, and from_page_table_indices* as inverse; non-trivial = p4>=256 (sign extension) or an index in {0,511} next to a differing neighbour; distinct by (indices, offset)",
@@ -184,7 +184,7 @@ pub fn run(run: &mut Run) {
         canon_va(),
         addr_case,
     );
-    let n = run.cases(100_000, 10_000_000);
+    let n = run.cases(500_000, 20_000_000);
     run.sub(
         "from_indices",
         "(p4,p3,p2,p1) from the edge-biased index generator; oracle: sign-extended packing, alignment to the page size, indices read back; non-trivial = p4>=256 or any index in {0,511}; distinct by tuple",
